@@ -156,6 +156,155 @@ def err_discipline(ctx, pfx, prefixes, exceptions=()):
         ctx.ob('%s.ERR.exception[%s:%s]' % (pfx, e[0].split('::')[-1], e[1]), 'RF-ERR', True, e[0], None,
                'named exception%s: %s' % ('' if e in used_exc else ' (not in use on this tree)', exceptions[e] if isinstance(exceptions, dict) else ''),
                nontrivial=False)
+    err_swallow(ctx, pfx, prefixes, SWALLOW_EXC)
+
+
+# sites where an error is deliberately turned into "absent", each confirmed by reading
+SWALLOW_EXC = {
+    ('akd::append_only_zks::Azks::get_next_node_in_child_path_from_cache', 'TreeNodeWithPreviousValue::determine_node_to_get.ok'):
+        'cache-only greedy preload walk: a node that is not usable at this epoch just ends the walk (nothing is proven from it)',
+    ('akd::directory::Directory::key_history', 'Directory::build_lookup_info.match'):
+        'preload_history only: a state whose lookup info cannot be built is not preloaded; the proof itself is built later with `?`',
+    ('akd::tree_node::TreeNodeWithPreviousValue::batch_get_appropriate_tree_node_from_storage', 'TreeNodeWithPreviousValue::determine_node_to_get.match'):
+        'batch get used by preloading: nodes not available at the target epoch are left out of the preloaded set',
+}
+
+
+WS_ERR = ('errors::', 'akd_core::verify::VerificationError', 'VerificationError', 'VrfError', 'ConversionError')
+SWALLOW_ADAPTORS = ('core::result::Result::ok', 'core::result::Result::is_ok', 'core::result::Result::is_err',
+                    'core::result::Result::unwrap_or', 'core::result::Result::unwrap_or_default',
+                    'core::result::Result::unwrap_or_else', 'core::result::Result::map_or', 'core::result::Result::map_or_else',
+                    'core::result::Result::or', 'core::result::Result::or_else', 'core::result::Result::into_iter',
+                    'core::result::Result::iter')
+
+
+def _err_type(ty):
+    """error type of a `Result<T, E>` type string if E is one of the workspace's error types"""
+    ty = (ty or '').replace('&', '').strip()
+    if not ty.startswith('std::result::Result<') and not ty.startswith('core::result::Result<'):
+        return None
+    inner = ty[ty.index('<') + 1:-1]
+    depth, cut = 0, None
+    for i, c in enumerate(inner):
+        if c in '<([':
+            depth += 1
+        elif c in '>)]':
+            depth -= 1
+        elif c == ',' and depth == 0:
+            cut = i
+    if cut is None:
+        return None
+    e = inner[cut + 1:].strip()
+    return e if any(w in e for w in WS_ERR) else None
+
+
+def err_swallow(ctx, pfx, prefixes, exceptions):
+    """RF-ERR (matched/converted half): a `Result<_, workspace error>` obtained in the listed modules is never turned
+    into a non-error outcome wholesale.  Two shapes are inspected on every run:
+      (1) adaptors that drop the error (`.ok()`, `.is_ok()`, `.unwrap_or*()`, `.map_or*()`, `.or*()`);
+      (2) a `match`/`if let` on the Result whose Err side can reach a non-failing exit without first dispatching on
+          the error's kind, or whose dispatch sends the catch-all arm to a non-failing exit (specific kinds such as
+          NotFound may be handled; everything else must stay an error).
+    `exceptions` = {(function, what): reason}: sites confirmed by reading (cache-only preload walks etc.)."""
+    prog = ctx.prog
+    n = 0
+    used = set()
+    bad = []
+    for p, b in nontest_bodies(prog):
+        if not p.startswith(tuple(prefixes)):
+            continue
+        base = p.split('::{closure')[0]
+        locs = b.raw['locals']
+
+        def lty(op):
+            q = op.get('c') or op.get('m')
+            return locs[q[0]]['ty'] if q and len(q) == 1 and q[0] < len(locs) else None
+
+        def src(local, pos):
+            e = b._expr_local(local, (), pos, 0)
+            cs = [c for c in strip_result(e) if c[0] == 'call' and not (short(c[2] or c[1]) or '').endswith(('map_err', 'or_else'))]
+            return short(cs[0][2] or cs[0][1]) if cs else '?'
+        # (1) adaptors
+        for pos, t in b.call_sites():
+            if t.get('fn') in SWALLOW_ADAPTORS and t['args'] and _err_type(lty(t['args'][0])):
+                n += 1
+                m = t['fn'].split('::')[-1]
+                if m in ('is_err', 'is_ok'):
+                    # `if r.is_err() { return Err(..) }` converts the error, it does not drop it
+                    conv = False
+                    for g in b.guards():
+                        c = g['cond']
+                        if g['fail'] and c[0] == 'call' and c[1] == t['fn'] and c[4] == pos[0]:
+                            conv = any(fc[0] == 'pred' and fc[3] is (m == 'is_err') for fc in failconds(b, g))
+                    if conv:
+                        continue
+                q = t['args'][0].get('c') or t['args'][0].get('m')
+                what = '%s.%s' % (src(q[0], pos), t['fn'].split('::')[-1])
+                if (base, what) in exceptions:
+                    used.add((base, what))
+                else:
+                    bad.append((base, what, b.loc(pos), 'the error of %s is dropped by .%s()' % (what.rsplit('.', 1)[0], t['fn'].split('::')[-1])))
+        # (2) matches
+        dsc = {}
+        for pos, st in b.stmts():
+            if st.get('k') == 'assign' and st['r']['k'] == 'discr' and len(st['p']) == 1:
+                dsc[st['p'][0]] = (pos, st['r'])
+        for sb, t in b.switches():
+            q = t['d'].get('m') or t['d'].get('c')
+            if not q or len(q) != 1 or q[0] not in dsc:
+                continue
+            dpos, r = dsc[q[0]]
+            if r.get('adt') != 'Result' or len(r['p']) != 1 or not _err_type(locs[r['p'][0]]['ty'] if r['p'][0] < len(locs) else None):
+                continue
+            rl = r['p'][0]
+            names = dict((v, nm) for v, nm in r['vars'])
+            tg = {names.get(v, str(v)): tb for v, tb in t['vals']}
+            errt = tg.get('Err', t['else'] if 'Err' not in tg else None)
+            if errt is None:
+                continue
+            n += 1
+            known = frozenset({(rl, 'Err')})   # on this side the scrutinee is an Err (prunes a later `scrutinee?`)
+            ks = b.exits((errt, 0), facts=known)
+            if not (ks - {'Err', 'Diverge'}):
+                continue
+            # error-kind dispatches reachable from the Err side
+            kind_sw = []
+            for sb2, t2 in b.switches():
+                q2 = t2['d'].get('m') or t2['d'].get('c')
+                if q2 and len(q2) == 1 and q2[0] in dsc:
+                    r2 = dsc[q2[0]][1]
+                    if r2.get('adt') != 'Result' and r2['p'][0] == rl and len(r2['p']) > 1 and r2['p'][1] == {'v': 'Err'}:
+                        kind_sw.append((sb2, t2, r2))
+            what = '%s.match' % src(rl, dpos)
+            reason = None
+            free = b.exits((errt, 0), facts=known, avoid_blocks=[x[0] for x in kind_sw])
+            if free - {'Err', 'Diverge'}:
+                reason = 'the Err side of the match on %s reaches a non-failing exit without looking at the error kind' % what.rsplit('.', 1)[0]
+            else:
+                for sb2, t2, r2 in kind_sw:
+                    ke = b.exits((t2['else'], 0), facts=known)
+                    listed = {v for v, _ in t2['vals']}
+                    allv = {v for v, _ in r2['vars']}
+                    if (allv - listed) and (ke - {'Err', 'Diverge'}):
+                        reason = 'the catch-all arm of the error-kind match on %s reaches a non-failing exit (only named kinds may be handled)' % what.rsplit('.', 1)[0]
+            if reason:
+                if (base, what) in exceptions:
+                    used.add((base, what))
+                else:
+                    bad.append((base, what, '%s:%s' % (b.file, t.get('l')), reason))
+    seen = set()
+    for base, what, where, reason in bad:
+        if (base, what) in seen:
+            continue
+        seen.add((base, what))
+        ctx.ob('%s.ERR.swallow[%s:%s]' % (pfx, base.split('::')[-1], what), 'RF-ERR', False, base, where, reason,
+               key='RF-ERR|swallow|%s|%s' % (base, what))
+    ctx.ob('%s.ERR.swallow.sites' % pfx, 'RF-ERR', n >= 5, ','.join(prefixes), None,
+           '%d matches/adaptors on Result<_, workspace error> inspected, %d swallow the error, %d named exceptions in use' % (n, len(seen), len(used)),
+           key='RF-ERR|%s|swallow.sites' % pfx)
+    for e in exceptions:
+        ctx.ob('%s.ERR.swallow.exception[%s:%s]' % (pfx, e[0].split('::')[-1], e[1]), 'RF-ERR', True, e[0], None,
+               'named exception%s: %s' % ('' if e in used else ' (not in use on this tree)', exceptions[e]), nontrivial=False)
 
 
 def local_uses(body):
@@ -460,3 +609,23 @@ def held_until(body, region, target_block):
             if d in body.reach_avoiding(body.succ(acq), avoid_blocks=[target_block]):
                 return False
     return True
+
+
+# ---------------------------------------------------------------- empty element set leaves the tree untouched
+
+def empty_batch_noop(ctx, pfx):
+    """Azks::batch_insert_nodes starts the recursive insertion at the root (which re-hashes and rewrites the root
+    node) only for a non-empty element set.  The auditor rebuilds the epoch-s tree from the proof's unchanged nodes;
+    for s = 0 (and for every tree whose start has no unchanged node) that set is empty and the tree must stay the
+    empty tree with the canonical empty-root hash (seeded change C04-r1-a removed the emptiness test)."""
+    prog = ctx.prog
+    bi = prog.fn_and_inner(AZ + 'batch_insert_nodes')
+    emp = decisions(bi, lambda fc: fc[0] == 'pred' and fc[1].endswith('is_empty') and fc[3] is True and
+                    (has_call(fc[2][0], 'AzksElementSet::from') or has_leaf(fc[2][0], 'nodes')))
+    acts = [ev for cal in ('recursive_batch_insert_nodes', 'TreeNode::write_to_storage') for ev, c in find_events(bi, cal)]
+    ok = bool(emp) and emp[0]['false'] is not None and len(acts) >= 2 and \
+        all(edge_dominates(bi, (emp[0]['block'], emp[0]['false']), ev['pos'][0]) for ev in acts)
+    ctx.ob(pfx + '.I.empty_batch_noop', 'RF-ORDER', ok, bi.path, '%s:%s' % (bi.file, emp[0]['line'] if emp else bi.line),
+           'the recursive insertion and the root rewrite happen only for a non-empty element set' if ok else
+           'an empty element set still runs the recursive insertion / rewrites the root (the empty tree no longer keeps the empty-root hash)',
+           key='RF-ORDER|empty_batch_noop')
